@@ -145,7 +145,11 @@ package store
 //@   ensures[others] forall h int :: old(indom(t.db.txn.ops, h)) ==> indom(t.db.txn.ops, h)
 //@ func (*Indexer).indexTxBySender
 //@   ensures[others] forall h int :: old(indom(t.db.txn.ops, h)) ==> indom(t.db.txn.ops, h)
+// (a transaction without a recipient has no by-recipient entry: its key would be built from the remaining components
+// alone - JoinLenPrefix skips a nil component - and a 20-byte height/index segment reads as an address: the entry would
+// sit inside another address's prefix range - C19)
 //@ func (*Indexer).indexTxByRecipient
+//@   callsite Set requires[hasrecipient] recipient != nil
 //@   ensures[others] forall h int :: old(indom(t.db.txn.ops, h)) ==> indom(t.db.txn.ops, h)
 //@ func (*Indexer).IndexTx
 //@   loop 1 invariant[aliases] forall k int :: 0 <= k && k <= iter ==> indom(t.db.txn.ops, memHash(txHashKeyOf(bytes(resultof(indexedTxHashes)[k]))))
